@@ -26,6 +26,11 @@ at the top-level directory.
 #include <getopt.h>
 #endif
 #include "slu_mt_machines.h"
+#ifdef SLU_MT_VERIF
+#include "slu_mt_verif.h"
+#else
+#define SLU_VERIF_EV(ev, pnum, a, b, c, p)
+#endif
 
 /***********************************************************************
  * Macros
